@@ -161,7 +161,11 @@ class _Builder:
                     arg_clos[k] = cb0
         if self.direct_closure_call(nb, t, depth, stack, file):
             return
-        target = self.inline_target(c, depth, stack, higher_order=bool(arg_clos))
+        # a higher-order helper that is handed an atomic (a CAS loop parameterised by its step) is looked into only from a caller that is
+        # itself such an RMW helper (`atomic_decrement(i)` = `atomic_step(i, |v| v - 1)`); from anywhere else it stays the opaque RMW
+        # primitive the C10 / C01 rules are written over
+        ho = bool(arg_clos) and any("sync::atomic::Atomic" in b.ltype.get(i, "") for i in range(1, b.argc + 1))
+        target = self.inline_target(c, depth, stack, higher_order=ho or (bool(arg_clos) and not any("sync::atomic::Atomic" in str(a.get("ty", "")) for a in t["args"] if isinstance(a, dict))))
         if target is not None and t.get("target") is not None:
             # parameters
             clm = {l["id"]: self.new_local(l["ty"]) for l in target.d["locals"]}
@@ -522,6 +526,13 @@ class _Builder:
                     continue
                 plans[blk["id"]] = {"kind": "next", "base": base, "adapters": ads}
                 claimed |= {a[3]["id"] for a in ads}
+            elif self._is_iter_method(c, {"collect"}) and len(t["args"]) == 1:
+                # `it.map(f).collect()`: the loop `for x in it.map(f) { out.push(x) }` with a fresh collection
+                base, ads = chain(t["args"][0])
+                if not ads or op_place(base) is None:
+                    continue
+                plans[blk["id"]] = {"kind": "collect", "base": base, "adapters": ads}
+                claimed |= {a[3]["id"] for a in ads}
         # closure adaptors whose result is consumed by something we cannot see into (rayon's consume_iter, collect, extend, a
         # caller): the closure may run once per element of the underlying iterator, possibly not for all of them
         for blk in mine:
@@ -635,6 +646,28 @@ class _Builder:
                 cur = nxt
             # the adapter call itself no longer does anything the analysis needs: keep it as a ghost so that its result type stays known
             ablk["term"] = dict(ablk["term"], ghost=True, absorbed=True)
+        if plan["kind"] == "collect":
+            # out = new(); loop { out.push(x) }; dst = out      (the collect call stays as a ghost: its type arguments name the collection)
+            out = self.new_local("collection built by collect")
+            mkc = mk()
+            nb["term"] = {"k": "call", "callee": {"path": "std::vec::Vec::<T>::new", "name": "new", "trait": None, "self_ty": "std::vec::Vec<T>", "crate": "alloc",
+                                                  "resolved": None, "synthetic": True},
+                          "args": [], "dst": {"local": out, "proj": []}, "target": head["id"], "unwind": t.get("unwind"), "line": line, "exp": False,
+                          "file": file, "synthetic": True}
+            pr = self.new_local("&mut collection")
+            cur["stmts"].append({"dst": {"local": pr, "proj": []}, "rv": {"k": "ref", "mut": True, "place": {"local": out, "proj": []}}, "line": line, "file": file})
+            cur["term"] = {"k": "call", "callee": {"path": "std::vec::Vec::<T>::push", "name": "push", "trait": None, "self_ty": "std::vec::Vec<T>", "crate": "alloc",
+                                                   "resolved": None, "synthetic": True},
+                           "args": [{"move": {"local": pr, "proj": []}, "ty": "&mut std::vec::Vec<T>"}, {"move": {"local": xl, "proj": []}, "ty": ""}],
+                           "dst": {"local": self.new_local("()"), "proj": []}, "target": head["id"], "unwind": t.get("unwind"), "line": line, "exp": False,
+                           "file": file, "synthetic": True}
+            done["stmts"].append({"dst": t["dst"], "rv": {"k": "use", "ops": [{"move": {"local": out, "proj": []}, "ty": ""}]}, "line": line, "file": file})
+            ghost = dict(t, ghost=True, absorbed=True, target=t["target"])
+            ghost["dst"] = {"local": self.new_local("ghost"), "proj": []}
+            done["term"] = ghost
+            done["orig"] = nb.get("orig")
+            mkc["term"] = goto(head["id"])
+            return
         if plan["kind"] == "opaque":
             clo_op, cb, pi, how, res = plan["closure"]
             after = mk()
